@@ -25,7 +25,7 @@ ASSUMPTIONS = ["label equivalence oracle = str.casefold() after ' '.join(label.s
 LABELS = ["r", "R", "Foo Bar", "foo  bar", "FOO\tbar", "foo\nbar", "ß", "SS", "ss", "ẞ", "É", "é", "ǅ", "ǆ", "Ǆ", "Σ", "ς", "σ", "İ", "i̇", "ı", "I", "i", "K", "k", "K",
           "Å", "å", "Å", "\xa0x", "x\xa0", "x\ty", "x y", "x  y", "x\xa0y", "x\u2003y", "x\x0cy", "x \xa0 y", "x\x0b\ty", "x\u2028y", "a\\]b", "a\\]B", "x*y*", "X*Y*", "ﬁ", "fi", "FI", "straße", "STRASSE", "ΐ", "ΐ", "ŉ", "ʼn", "θ", "ϑ", "ϴ",
           "long label with many words", "Long  Label with\tMany words",
-          "w1 w2 w3 w4 w5 w6 w7 w8 w9 w10 w11 w12", "W1  w2 w3\tw4 w5 w6 w7 w8 w9  w10\tw11\nw12", "w1 w2 w3 w4 w5 w6 w7 w8 w9 w10 w11\xa0w12", "1", "١", "!", "\\!"]
+          "foo\\]\nbar", "FOO\\] BAR", "a\\]\nb\nc", "x\\[\ny", "w1 w2 w3 w4 w5 w6 w7 w8 w9 w10 w11 w12", "W1  w2 w3\tw4 w5 w6 w7 w8 w9  w10\tw11\nw12", "w1 w2 w3 w4 w5 w6 w7 w8 w9 w10 w11\xa0w12", "1", "١", "!", "\\!"]
 TITLES = ["", ' "t"', " 't'", " (t)", ' "a \\" b"', ' "&amp; *x*"', ' "multi\nline"', " 'it\\'s'", ' "é"', ' ""', " '\\''", ' "a\\\\"', ' "(x)"', " (a\\)b)", "\n'next line'",
           ' "multi\n    # line"', " 'a\n     > b'", ' (x\n    - y)', "\n    'next line'", '\n\t"tab title"', ' "a\n    ```\n    b"', ' "a\n      <div>"', " 'a\n    1. b'",
           ' "tab\there"', " (&quot;)", ' "<b>"', ' "one\\\ntwo"', " 'a\\\nb\\\nc'", ' "x\\\\"', " (p\\\nq)"]
@@ -36,7 +36,7 @@ TEXTS = ["t", "*e*", "`c`", "a b", "x\\]y", "![i](s)", "é", "a\nb", "&amp;", "[
 
 
 def floors(tier):
-    return dict(_floors(tier), **{"triples.conf.hooks": 10000, "triples.conf.nocode": 5000, "triples.hook_changed_result": 2000, "acct.own_lines_checked": 50000, "acct.backslash_eol": 3000})
+    return dict(_floors(tier), **{"triples.conf.hooks": 10000, "triples.conf.nocode": 5000, "triples.hook_changed_result": 2000, "acct.own_lines_checked": 50000, "acct.backslash_eol": 3000, "context.cases": 30000, "context.resolved_alone": 20000})
 
 
 def _floors(tier):
@@ -302,8 +302,39 @@ def triple_case(ctx, case):
         viol(ctx, "reference-vs-inline:tokens-differ", f"{d} | {inl!r} vs {ref!r}", case)
 
 
+PRECEDING = ["- [a]: /a\n", "> [a]: /a\n", "1. [a]: /a\n", "- [a]: /a\n  [c]: /c\n", "> - [a]: /a\n", "- > [a]: /a\n", "-   [a]:\n    /a\n", "> [a]: /a 'x\n> y'\n",
+             "\n", "para\n\n", "- i\n\n", "[a]: /a\n", "[a]: /a\n[c]: /c 'q'\n", "# h\n", "***\n", "```\nf\n```\n", "- [a]: /a\n- [c]: /c\n", "10. [a]: /a\n"]
+
+
+def context_case(ctx, case):
+    """a definition is recognised, and resolves to the same link, whatever closed construct precedes it directly (another definition
+    inside a list item or quote, a heading, a fence, ...): nothing before it can be continued by its first line"""
+    ctx.count("evaluations")
+    ctx.current = case
+    md = W.get_md(MD)
+    lab, dest, title, pre = case["label"], case["dest"], case["title"], case["pre"]
+    body = f"[{lab}]: {dest}{title}\n\n[x][{lab}] ![y][{lab}]\n"
+    try:
+        t_alone = md.parse(body)
+        t_ctx = md.parse(pre + body)
+    except Exception:
+        ctx.count("skipped.exception")
+        return
+    ctx.count("context.cases")
+
+    def last_links(toks):
+        inl = [t for t in toks if t.type == "inline"]
+        return links(inl[-1].children) if inl else None
+    a, b = last_links(t_alone), last_links(t_ctx)
+    if a:
+        ctx.count("context.resolved_alone")
+        ctx.nontrivial("context", lab, dest, title, pre)
+    if a != b:
+        viol(ctx, "definition-depends-on-preceding-construct", f"alone the references resolve to {a}, after {pre!r} to {b} | doc={pre + body!r}", case)
+
+
 def replay(ctx, case):
-    {"seed": seed_case, "acct": acct_case, "label": label_case, "triple": triple_case, "fidelity": fidelity_case}[case["kind"]](ctx, case)
+    {"seed": seed_case, "acct": acct_case, "label": label_case, "triple": triple_case, "fidelity": fidelity_case, "context": context_case}[case["kind"]](ctx, case)
 
 
 def gen_defs(rng, n, labels=None):
@@ -427,6 +458,9 @@ def run(ctx):
             want = {onorm(l) for l in labs}
             if not want <= got and not {onorm(l.replace("ı", "i")) for l in labs} <= {x.replace("ı", "i") for x in got}:
                 viol(ctx, "wellformed-definition-not-recognised", f"definitions for {sorted(want - got)} are not recorded (a title-like line with trailing text follows the destination)", {"kind": "fidelity", "src": src})
+    # (2c) a definition directly after every kind of closed construct
+    for k in range(ctx.scale(40000, 1000000)):
+        context_case(ctx, {"kind": "context", "label": rng.choice(["b", "b", "Foo Bar", "foo\\]\nbar", "x\ny"]), "dest": rng.choice(DESTS), "title": rng.choice(TITLES), "pre": rng.choice(PRECEDING)})
     # (3)
     classes = {}
     for l in LABELS:
